@@ -43,4 +43,28 @@ func init() {
 		NotDecided:  "the content of the reported cycle; liveness of user code inside Execute",
 		Rules:       []func(*World){rdIncremental, reIncremental, rcIncremental, rfIncremental, rgIncremental},
 	})
+	register(&Property{
+		ID:          "C35",
+		Explanation: "R35: for every query type in experimental/incremental/queries, Key() returns the whole (comparable) query value, or every receiver field Execute reads flows into Key(). RH7: source.Opener.Open is called (outside package source) only from queries.File.Execute, the leaf that edits evict; everything else reaches file contents through Resolve, which records the dependency edge (RC6). RH4: query bodies run only through the executor.",
+		NotDecided:  "equality of outputs across edit histories; purity of the lowering code beyond the receiver/key discipline",
+		Rules:       []func(*World){r35Queries, rh7Queries, rh4Incremental, rcIncremental},
+	})
+	register(&Property{
+		ID:          "C36",
+		Explanation: "RC4: Run returns a report only after Canonicalize and nothing is appended afterwards. RU: every field of report.Diagnostic must be a sort key of Canonicalize (directly, or through Primary()); un-keyed observable fields make the canonical order depend on the input order and are reported.",
+		NotDecided:  "idempotence of de-duplication; determinism of the diagnostics each query produces",
+		Rules:       []func(*World){rc4Incremental, ruCanonicalize},
+	})
+	register(&Property{
+		ID:          "C37",
+		Explanation: "RT: the set of compilerpb.{Report,Report_File,Diagnostic,Diagnostic_Annotation,Diagnostic_Edit} fields written by ToProto equals the set read by AppendFromProto and covers every field of the messages; every field of report.Diagnostic/snippet/Edit is carried (except the reviewed sortOrder); the Report_File record is produced by (*source.File).Path/Text (resolved callees), the inverse of the decoder's source.NewFile(path, text); the decoder's span validation is evaluated on all (start,end,len) triples of a small model and must reject exactly start>end or end>len; its level switch accepts every Level constant.",
+		NotDecided:  "text/edit content equality (delegated to protobuf)",
+		Rules:       []func(*World){rtReport},
+	})
+	register(&Property{
+		ID:          "C27",
+		Explanation: "RS (one clause): the accept flag of ir.(*Session).Lower is computed by a comparison of Diagnostic.Level() with constants which, evaluated over the whole Level domain with go/constant, clears ok exactly for {ICE, Error}.",
+		NotDecided:  "agreement of verdicts and descriptors between the two compilers (differential, value-level)",
+		Rules:       []func(*World){rsLower},
+	})
 }
